@@ -312,8 +312,24 @@ Qed.
 Lemma wrapi_lt n z : 0 < n -> wrapi n z < n.
 Proof. intros H. unfold wrapi. pose proof (Z.mod_pos_bound z (Z.of_nat n)). lia. Qed.
 
+Lemma prv_val n i : 2 <= n -> i < n -> prv n i = if Nat.eq_dec i 0 then n - 1 else i - 1.
+Proof.
+  intros Hn Hi. unfold prv, wrapi. destruct (Nat.eq_dec i 0) as [->|Hne].
+  - replace (Z.of_nat 0 - 1)%Z with (-1 * Z.of_nat n + (Z.of_nat n - 1))%Z by lia.
+    rewrite Z.add_comm, Z.mod_add by lia. rewrite Z.mod_small by lia. lia.
+  - rewrite Z.mod_small by lia. lia.
+Qed.
+
+Lemma nxt_val n i : 2 <= n -> i < n -> nxt n i = if Nat.eq_dec (i + 1) n then 0 else i + 1.
+Proof.
+  intros Hn Hi. unfold nxt, wrapi. destruct (Nat.eq_dec (i + 1) n) as [E|Hne].
+  - replace (Z.of_nat i + 1)%Z with (0 + 1 * Z.of_nat n)%Z by lia.
+    rewrite Z.mod_add by lia. rewrite Z.mod_small by lia. reflexivity.
+  - rewrite Z.mod_small by lia. lia.
+Qed.
+
 Lemma prv_props n i : 2 <= n -> i < n -> prv n i < n /\ prv n i <> i.
-Proof. intros Hn Hi. unfold prv, wrapi. split; lia. Qed.
+Proof. intros Hn Hi. rewrite (prv_val Hn Hi). destruct (Nat.eq_dec i 0); lia. Qed.
 
 Lemma nxt_props n i : 2 <= n -> i < n -> nxt n i < n /\ nxt n i <> i.
-Proof. intros Hn Hi. unfold nxt, wrapi. split; lia. Qed.
+Proof. intros Hn Hi. rewrite (nxt_val Hn Hi). destruct (Nat.eq_dec (i + 1) n); lia. Qed.
